@@ -360,6 +360,8 @@ func (s *State) makeEqual(al, bl []*cmd) {
 					s.subCmdOf = ""
 				}
 				s.addChange("no " + a.orig)
+				// New rule must use index of its own certificate map.
+				b.seq = s.b.lookup["crypto ca certificate map"][b.ref[0]][0].seq
 			}
 			s.addCmd(b)
 		}
